@@ -22,7 +22,7 @@ import vlib
 
 LISTED = {"closed", "EOF", "EPIPE", "RST", "REFUSED", "ABORTED", "HOSTUNREACH"}
 TIMEOUTS = {"timeout", "ETIMEDOUT"}
-CLASS_SITES = {"noreg.Read", "notransport.Read", "loop.Read", "init.SetDeadline", "found.SetDeadline", "relay.Read",
+CLASS_SITES = {"noreg.Read", "notransport.Read", "loop.Read", "init.SetDeadline", "found.SetDeadline", "relay.Read", "relay.ReadFull",
                "relay.Write", "dial"}
 
 
